@@ -51,11 +51,11 @@ RULE = (
     "or a refusal was required (key: parent, sub-screen, operation, operand states, result)."
 )
 BOUNDS = {
-    "quick": {"parents": ["A4", "B4", "C4", "D4", "E3", "F2"], "max_rows": 4, "concat_list_len": 3,
+    "quick": {"parents": ["A4", "B4", "C4", "D4", "E3", "F2", "G4", "H3"], "max_rows": 4, "concat_list_len": 3,
               "sub_screens": "all 2^N row subsets of each parent",
               "sparse_probes": "screens of 300 / 771 / 1500 / 4200 / 2048 rows with 300 / 257 / 3 / 7 / 4 plates: every plates[] entry, and 9 compositions (complement of an interior block, prefix, suffix, stride, observed)",
               "held_views": "every view recipe (observed / unobserved / inverse / each plate / all 2^N subsets) x every non-empty union of unobserved plates filled in by set_observed afterwards"},
-    "thorough": {"parents": ["A4", "B4", "C4", "D4", "E3", "F2", "A5", "B5"], "max_rows": 5, "concat_list_len": 3,
+    "thorough": {"parents": ["A4", "B4", "C4", "D4", "E3", "F2", "G4", "H3", "A5", "B5"], "max_rows": 5, "concat_list_len": 3,
                  "sub_screens": "all 2^N row subsets of each parent", "held_views": "as quick, on all six parents"},
 }
 ASSUMPTIONS = [
@@ -113,6 +113,19 @@ PARENTS = {
     "F2": [
         ("s0", "p0", (("a", 1.0),), float("nan"), True),
         ("s0", "p1", (("a", 1.0),), float("-inf"), True),
+    ],
+    # one condition spelled three ways (control by name at dose 0, a drug at dose 0, the control name at a positive dose): the ids agree
+    "G4": [
+        ("s0", "p0", (("a", 1.0), (CTL, 0.0)), 0.21, True),
+        ("s0", "p1", (("a", 1.0), ("b", 0.0)), 0.31, False),
+        ("s1", "p0", (("a", 1.0), ("b", 0.0)), 0.41, True),
+        ("s0", "p1", (("a", 1.0), (CTL, 1.0)), 0.51, False),
+    ],
+    # the repeats of one sample's condition are separated by another sample's well with the same treatment
+    "H3": [
+        ("s0", "p0", (("a", 1.0),), 0.2, False),
+        ("s1", "p0", (("a", 1.0),), 0.3, False),
+        ("s0", "p1", (("a", 1.0),), 0.4, True),
     ],
     "A5": [
         ("s0", "pB", (("a", 1.0), ("b", 1.0)), 0.11, True),
